@@ -135,6 +135,8 @@ const IRIS: &[&str] = &[
     "http://ex.org/a", "http://ex.org/b#x", "http://ex.org/é", "x:p", "tag:q", "urn:uuid:0", "http://[::1]/", "http://a/?q=1&r=%20#f",
     "http://é.org/\u{10000}?\u{e000}", "a:", "http://www.w3.org/1999/02/22-rdf-syntax-ns#type", "x:a.b", "x:_:a", "x:'()*",
     "http://a@b:80/", "mailto:a@b", "x://h/~!$&*+,;=:@", "http://[1:2::3:4:5:6:7]/", "http://[v1.a]/",
+    // schemes with every character RFC 3986 allows after the first letter (seeded change C03-d)
+    "svn+ssh://host/repo", "chrome-extension://abcdef/x.js", "z39.50r://host/db?q", "a+.-1:x", "coap+tcp://[::1]/",
 ];
 /// relative references: SimpleTerm may hold them, the N-Triples parser cannot accept them: observations only
 const IRIS_OUTSIDE: &[&str] = &["rel", "/abs/path", "#frag", "", "//authority/x"];
